@@ -510,6 +510,8 @@ func main() {
 		timeoutUnit(res)
 	case "cancel-proc":
 		cancelProcUnit(res)
+	case "clishare": // a pipeline included by several stages of the requested pipeline (alone, before and after other targets)
+		cliUnit(res, 2, []int{1, 3}, "ok", "pshseq", "pshallow", "pshlate")
 	case "cli2":
 		cliUnit(res, 2, []int{1})
 	case "cli3":
@@ -533,7 +535,7 @@ done:
 type capCase struct {
 	Name    string `json:"name"`
 	Payload string `json:"payload"` // index into payloads
-	Shape   string `json:"shape"`   // one, two, two-x2, allowed-failure, chain, failed-chain
+	Shape   string `json:"shape"`   // one, two, two-x2, allowed-failure, chain, failed-chain, ansi-split, rerun, rerun-copy
 	Export  string `json:"export"`
 	Format  string `json:"format,omitempty"` // output format of the runner (default raw): what is captured must not depend on it
 }
@@ -594,6 +596,18 @@ func runCapture(c capCase) string {
 		t.Commands = []string{"printf '%s' 'first out'; exit 3", "printf '%s' '<{{.Output}}>'; exit 4", "printf '%s' '[{{.Output}}]'"}
 		t.AllowFailure = true
 		want = "first out" + "<first out>" + "[<first out>]"
+	case "rerun", "rerun-copy":
+		// the task has already run once in this invocation (an earlier target, an earlier stage sharing it, the
+		// watcher's start-up run - which is followed by runs of a struct copy): what is captured is this run's output
+		t.Commands = []string{emit, "printf '%s' second"}
+		want = pl + "second"
+		if err := r.Run(t); err != nil {
+			return "first run of the producer failed: " + err.Error()
+		}
+		if c.Shape == "rerun-copy" {
+			tc := *t
+			t = &tc
+		}
 	}
 	if err := r.Run(t); err != nil {
 		return "producer failed: " + err.Error()
@@ -669,7 +683,7 @@ func captureUnit(res *common.Result) {
 	// the capture must not depend on the output format
 	for _, f := range []string{output.FormatPrefixed, output.FormatCockpit} {
 		for _, p := range pls {
-			for _, sh := range []string{"one", "two-x2", "allowed-failure", "chain", "failed-chain", "ansi-split"} {
+			for _, sh := range []string{"one", "two-x2", "allowed-failure", "chain", "failed-chain", "ansi-split", "rerun", "rerun-copy"} {
 				if do(capCase{Name: "plain", Payload: p, Shape: sh, Format: f}) {
 					return
 				}
@@ -678,7 +692,7 @@ func captureUnit(res *common.Result) {
 	}
 	for _, n := range []string{"plain", "a.b", "build:all"} {
 		for _, p := range pls {
-			for _, sh := range []string{"one", "two", "two-x2", "allowed-failure", "chain", "failed-chain", "ansi-split"} {
+			for _, sh := range []string{"one", "two", "two-x2", "allowed-failure", "chain", "failed-chain", "ansi-split", "rerun", "rerun-copy"} {
 				for _, ex := range []string{"", "MYVAR"} {
 					if do(capCase{Name: n, Payload: p, Shape: sh, Export: ex}) {
 						return
@@ -953,7 +967,58 @@ func runCli(c cliCase) string {
     command: "echo slowok >> %[1]s; sleep 0.3"
   latefail:
     command: "sleep 0.1; echo latefail >> %[1]s; exit %[2]d"
+  okin:
+    command: "echo okin >> %[1]s"
+  failin:
+    command: "echo failin >> %[1]s; exit %[2]d"
+  slow1:
+    command: "echo slow1 >> %[1]s.a; sleep 1"
+  delay:
+    command: "sleep 0.4; echo delay >> %[1]s.b"
 pipelines:
+  pin:
+    - task: okin
+      name: s1
+    - task: failin
+      name: s2
+      depends_on: [s1]
+  pin2:
+    - task: okin
+      name: s1
+    - task: failin
+      name: s2
+      depends_on: [s1]
+  pinlate:
+    - task: slow1
+      name: a
+    - task: failin
+      name: b
+  pshseq:
+    - pipeline: pin
+      name: first
+      allow_failure: true
+    - pipeline: pin
+      name: second
+      depends_on: [first]
+  pshallow:
+    - pipeline: pin2
+      name: first
+      allow_failure: true
+    - pipeline: pin2
+      name: second
+      allow_failure: true
+      depends_on: [first]
+    - task: ok
+      name: third
+      depends_on: [second]
+  pshlate:
+    - pipeline: pinlate
+      name: early
+    - task: delay
+      name: d
+    - pipeline: pinlate
+      name: late
+      depends_on: [d]
   ppar:
     - task: slowok
       name: s1
@@ -1035,6 +1100,15 @@ pipelines:
 			allOK = false
 		case "pallow": // the failing stage allows failure: its dependant runs, the pipeline succeeded
 			want = append(want, "ok2", "fail", "ok")
+		case "pshseq": // one pipeline included by two stages, one after the other: its stages run once, and its failure fails the stage that does not allow it
+			want = append(want, "okin", "failin")
+			allOK = false
+		case "pshallow": // both including stages allow the failure: the dependant runs, the pipeline succeeded
+			want = append(want, "okin", "failin", "ok")
+		case "pshlate": // the second including stage joins while the shared pipeline is in flight and has already failed
+			// (the three commands are independent and write to files of their own: appends of concurrent commands could interleave)
+			want = append(want, "failin", "+slow1", "+delay")
+			allOK = false
 		case "fail":
 			want = append(want, "fail")
 			allOK = false
@@ -1055,6 +1129,13 @@ pipelines:
 			got[i], got[i+1] = got[i+1], got[i]
 		}
 	}
+	for _, f := range []string{".a", ".b"} {
+		if b, err := os.ReadFile(trace + f); err == nil {
+			for _, t := range strings.Fields(string(b)) {
+				got = append(got, "+"+t)
+			}
+		}
+	}
 	if strings.Join(got, " ") != strings.Join(want, " ") {
 		return fmt.Sprintf("trace %v, model %v (exit status %d)", got, want, code)
 	}
@@ -1064,13 +1145,15 @@ pipelines:
 	return ""
 }
 
-func cliUnit(res *common.Result, maxLen int, statuses []int) {
+func cliUnit(res *common.Result, maxLen int, statuses []int, alphabet ...string) {
 	prop := "C07"
 	if *common.Prop == "C02" { // the same invocations judged for "the run reports an error" (C02)
 		prop = "C02"
 	}
 	flagLen := maxLen - 1 // non-default flag sets: target sequences one shorter than the maximum
-	alphabet := []string{"ok", "fail", "pok", "pfail", "unknown", "allow", "skip", "pallow", "ppar"}
+	if len(alphabet) == 0 {
+		alphabet = []string{"ok", "fail", "pok", "pfail", "unknown", "allow", "skip", "pallow", "ppar"}
+	}
 	var idx int64
 	distinct := map[string]bool{}
 	var rec func(cur []string) bool
@@ -1079,7 +1162,13 @@ func cliUnit(res *common.Result, maxLen int, statuses []int) {
 		// targets; today a second occurrence finds its stages already done and runs nothing):
 		// such sequences are not enumerated.
 		npok, npfail, npallow, nppar := 0, 0, 0, 0
+		nsh := map[string]int{}
 		for _, t := range cur {
+			if strings.HasPrefix(t, "psh") {
+				if nsh[t]++; nsh[t] > 1 {
+					return false
+				}
+			}
 			if t == "pok" {
 				npok++
 			}
@@ -1100,7 +1189,7 @@ func cliUnit(res *common.Result, maxLen int, statuses []int) {
 			vias := []string{"", "run"}
 			onlyTasks := true
 			for _, t := range cur {
-				if t == "pok" || t == "pfail" || t == "pallow" || t == "ppar" {
+				if t == "pok" || t == "pfail" || t == "pallow" || t == "ppar" || strings.HasPrefix(t, "psh") {
 					onlyTasks = false
 				}
 			}
@@ -1118,7 +1207,7 @@ func cliUnit(res *common.Result, maxLen int, statuses []int) {
 					for _, s := range statuses {
 						hasFail := false
 						for _, t := range cur {
-							if t == "fail" || t == "pfail" {
+							if t == "fail" || t == "pfail" || strings.HasPrefix(t, "psh") {
 								hasFail = true
 							}
 						}
